@@ -144,6 +144,9 @@ class CeilQuot:
     def __ne__(self, o):
         return not self.__eq__(o)
 
+    def __bool__(self):
+        return not self.__eq__(0)
+
     def __add__(self, o):
         if type(o) is int:
             return CeilQuot(self.num, self.den, self.k + o)
